@@ -38,7 +38,8 @@ def s_run(draw):
             "interrupt": draw(st.one_of(st.none(), st.none(), st.sampled_from(TIMES))),
             "reenter": draw(st.sampled_from([0, 0, 0, 1, 2])),
             "ties": draw(st.lists(st.integers(0, 3), max_size=4)),
-            "handlers": [draw(st.sampled_from(HANDLERS)) for _ in range(3)]}
+            "handlers": [draw(st.sampled_from(HANDLERS)) for _ in range(3)],
+            "own_stop": draw(st.sampled_from([False, False, True]))}      # the application had wrapped reactor.stop on the instance
     return step
 
 
@@ -113,6 +114,15 @@ def run_case(spec):
                 signal.signal(getattr(signal, name), pre[name])
             reactor.ties = list(step["ties"])
             reactor._tie_pos = 0
+            if step.get("own_stop"):
+                class_stop = type(reactor).stop
+
+                def wrapped_stop(reactor=reactor, class_stop=class_stop):
+                    return class_stop(reactor)
+                reactor.stop = wrapped_stop          # an instance attribute, as a monkey-patching application leaves it
+            elif "stop" in vars(reactor):
+                del reactor.stop
+            original_stop = reactor.stop
             base = reactor.seconds()
             fired_extra = []
             inner = []
@@ -204,7 +214,8 @@ def run_case(spec):
                 vs.append(V("restore", "selectables-left", "%d selectables still registered" % len(reactor.readers)))
                 reactor.readers = []
             if reactor.stop != original_stop:
-                vs.append(V("restore", "reactor.stop", "reactor.stop is %r, was %r" % (reactor.stop, original_stop)))
+                vs.append(V("restore", "reactor.stop" + ("-instance-attribute" if step.get("own_stop") else ""),
+                            "reactor.stop is %r, was %r" % (reactor.stop, original_stop)))
                 reactor.stop = original_stop
             for name in pre:
                 now = signal.getsignal(getattr(signal, name))
